@@ -4,6 +4,7 @@ import (
 	"encoding/json"
 	"fmt"
 	"strings"
+	"sync"
 	"testing"
 	"time"
 
@@ -323,6 +324,132 @@ func init() {
 		}
 		if _, v := checkE2E(c); v != nil {
 			vh.Fail(t, vh.Failure{Property: prop, Part: "e2e", Signature: v.sig, Message: v.msg, Case: c})
+		}
+	})
+}
+
+// ---- concurrent writers and readers over the same backend connection
+
+type concE2ECase struct {
+	Masters   int    `json:"masters"`
+	Threshold uint32 `json:"threshold"`
+	Keys      int    `json:"keys"`
+	Writers   int    `json:"writers"`
+	Readers   int    `json:"readers"`
+	Rounds    int    `json:"rounds"`
+	Seed      uint64 `json:"seed"`
+}
+
+func concValue(seed uint64, i int) []byte {
+	// compressible, distinct per key
+	return []byte(fmt.Sprintf("k%d-%d;", i, seed) + strings.Repeat(fmt.Sprintf("abcdefgh%d", i%7), 20+i%60))
+}
+
+func checkConcE2E(c concE2ECase) *verdict {
+	w, err := sim.NewWorld(c.Masters, 0)
+	if err != nil {
+		return nil
+	}
+	defer w.Close()
+	w.AssignEven(w.Masters())
+	px, err := sim.StartProxy(sim.ProxyOpts{Seeds: w.AllAddrs(), Compression: &redispb.Compression{Enable: true, Algorithm: redispb.Compression_SNAPPY, Threshold: c.Threshold}})
+	if err != nil {
+		return &verdict{"proxy-start", err.Error()}
+	}
+	defer px.Stop(20 * time.Second)
+	px.WaitTableLoaded(1, 10*time.Second)
+	key := func(i int) string { return fmt.Sprintf("cc:%d", i) }
+	// phase 1: sequential
+	cl, err := sim.Dial(px.Addr)
+	if err != nil {
+		return nil
+	}
+	for i := 0; i < c.Keys; i++ {
+		if r, err := cl.DoB(20*time.Second, []byte("SET"), []byte(key(i)), concValue(c.Seed, i)); err != nil || r.IsErr() {
+			cl.Close()
+			return &verdict{"reply-missing", fmt.Sprintf("SET: %s %v", r, err)}
+		}
+	}
+	cl.Close()
+	// phase 2: writers re-write the same values while readers read them, all through the same backend connections
+	var wg sync.WaitGroup
+	res := make([]*verdict, c.Writers+c.Readers)
+	for g := 0; g < c.Writers+c.Readers; g++ {
+		wg.Add(1)
+		go func(g int) {
+			defer wg.Done()
+			cl, err := sim.Dial(px.Addr)
+			if err != nil {
+				return
+			}
+			defer cl.Close()
+			for r := 0; r < c.Rounds; r++ {
+				i := (g*31 + r*7) % c.Keys
+				if g < c.Writers {
+					if rep, err := cl.DoB(20*time.Second, []byte("SET"), []byte(key(i)), concValue(c.Seed, i)); err != nil || rep.IsErr() {
+						res[g] = &verdict{"reply-missing", fmt.Sprintf("concurrent SET: %s %v", rep, err)}
+						return
+					}
+					continue
+				}
+				rep, err := cl.Do(20*time.Second, "GET", key(i))
+				if err != nil {
+					res[g] = &verdict{"reply-missing", fmt.Sprintf("concurrent GET: %v", err)}
+					return
+				}
+				if want := concValue(c.Seed, i); rep.K != ref.Bulk || string(rep.S) != string(want) {
+					res[g] = &verdict{"read-back-differs", fmt.Sprintf("GET %s under %d concurrent writers and %d readers returned %q, written %q", key(i), c.Writers, c.Readers, clip(rep.S), clip(want))}
+					return
+				}
+			}
+		}(g)
+	}
+	wg.Wait()
+	for _, r := range res {
+		if r != nil {
+			return r
+		}
+	}
+	// what the backends hold
+	for i := 0; i < c.Keys; i++ {
+		loc := w.KeyLocation(key(i))
+		if len(loc) != 1 {
+			return &verdict{"stored-neither-original-nor-framed", fmt.Sprintf("key %s is on %d nodes", key(i), len(loc))}
+		}
+		w.Lock()
+		stored := append([]byte{}, w.Nodes[loc[0]].KS.M[key(i)].Str...)
+		w.Unlock()
+		if _, vd := storedOK(concValue(c.Seed, i), stored, c.Threshold); vd != nil {
+			vd.msg = fmt.Sprintf("key %s after concurrent writes: %s", key(i), vd.msg)
+			return vd
+		}
+	}
+	return nil
+}
+
+func TestE2EConcurrent(t *testing.T) {
+	rapid.Check(t, func(t *rapid.T) {
+		c := concE2ECase{Masters: rapid.IntRange(1, 2).Draw(t, "masters"), Threshold: uint32(rapid.IntRange(16, 128).Draw(t, "thr")), Keys: rapid.IntRange(4, 40).Draw(t, "keys"),
+			Writers: rapid.IntRange(1, 6).Draw(t, "writers"), Readers: rapid.IntRange(1, 6).Draw(t, "readers"), Rounds: rapid.IntRange(50, 600).Draw(t, "rounds"), Seed: rapid.Uint64Range(1, 1<<20).Draw(t, "seed")}
+		vh.CurrentCase(prop, "e2e-concurrent", c)
+		v := checkConcE2E(c)
+		vh.ClearCurrentCase()
+		if v != nil {
+			vh.Fail(t, vh.Failure{Property: prop, Part: "e2e-concurrent", Signature: v.sig, Message: v.msg, Case: c})
+		}
+		vh.Rec().Case("e2e-concurrent", true, vh.JSON(c))
+		vh.Rec().Sample("e2e-concurrent", true, func() interface{} { return c })
+	})
+}
+
+func init() {
+	vh.RegisterReplay("e2e-concurrent", func(t *testing.T, raw json.RawMessage) {
+		var c concE2ECase
+		json.Unmarshal(raw, &c)
+		for i := 0; i < 5; i++ {
+			if v := checkConcE2E(c); v != nil {
+				vh.Fail(t, vh.Failure{Property: prop, Part: "e2e-concurrent", Signature: v.sig, Message: v.msg, Case: c})
+			}
 		}
 	})
 }
